@@ -377,6 +377,7 @@ func IsCallValue(keys ...string) func(ssa.Value) bool {
 func CutAtoms(p *Program, fn *ssa.Function, re *regexp.Regexp, atomVal bool) (EdgeSet, []string) {
 	cut := EdgeSet{}
 	var matched []string
+	seenAtom := map[string]bool{}
 	c := NewCanon(p)
 	for _, b := range fn.Blocks {
 		if len(b.Instrs) == 0 {
@@ -402,7 +403,7 @@ func CutAtoms(p *Program, fn *ssa.Function, re *regexp.Regexp, atomVal bool) (Ed
 	// the branch is then on a merge of booleans. The side of that branch on which the merge is
 	// true (false) implies the tested fact if every way the merge gets that value does: a constant
 	// that arrives over an edge already cut, or a comparison that matches itself.
-	for changed := len(cut) > 0; changed; {
+	for changed := true; changed; {
 		changed = false
 		for _, b := range fn.Blocks {
 			if len(b.Instrs) == 0 {
@@ -449,6 +450,10 @@ func CutAtoms(p *Program, fn *ssa.Function, re *regexp.Regexp, atomVal bool) (Ed
 					// e == want  =>  atom == (wt == want) ; must be atomVal
 					if re.MatchString(a) && (wt == want) == atomVal {
 						some = true
+						if !seenAtom[a] {
+							seenAtom[a] = true
+							matched = append(matched, a)
+						}
 						continue
 					}
 					okAll = false
